@@ -125,6 +125,7 @@ def run_case(case):
                 else:
                     st["req"] = new_request()
                     st["t"] = c
+                    st["style"] = rng.choice(["registered", "registered", "comb"])
                     st["lanes"] = {}
                     drive = {"cyc": 1, "stb": 1, **st["req"]}
                     if st["last_ack_cycle"] == c - 1:
@@ -132,6 +133,11 @@ def run_case(case):
                         mon.count("back_to_back_transfers")
             else:
                 drive = {"cyc": 1, "stb": 1, **st["req"]}
+                if st.get("style") == "comb" and c - st["t"] == ratio + 1:
+                    # a master that reacts combinationally to the acknowledge: in the very cycle ACK is high it has
+                    # already withdrawn the request (STB alone, or CYC and STB), possibly with other address/data lines
+                    drive = {**new_request(), "cyc": rng.choice([0, 1]), "stb": 0}
+                    mon.count("requests_withdrawn_in_the_acknowledge_cycle")
             for k, v in drive.items():
                 if k == "adr" and not waw:
                     continue
